@@ -104,7 +104,9 @@ class Decompiler:
                 exps[wn[1]] = Xor(exps[wn[0]], exps[wn[1]])
             elif isinstance(g, gates.CCX):
                 exps[wn[2]] = Xor(And(exps[wn[0]], exps[wn[1]]), exps[wn[2]])
-            elif isinstance(g, gates.MCX):
+            elif isinstance(g, gates.MCX) or (
+                isinstance(g, gates.MCtrl) and isinstance(g.gate, gates.X)
+            ):
                 exps[wn[-1]] = Xor(And(*[exps[ww] for ww in wn[0:-1]]), exps[wn[-1]])
             elif issubclass(g.__class__, gates.NopGate) or isinstance(g, gates.I):
                 # the identity is one of the ZB_GATES a section is made of: it changes nothing
@@ -127,7 +129,9 @@ class Decompiler:
 
         i = 0
         for g, w, p in qc.gates + [(None, [0], None)]:
-            if any(isinstance(g, zb_g) for zb_g in ZB_GATES):
+            if any(isinstance(g, zb_g) for zb_g in ZB_GATES) or (
+                isinstance(g, gates.MCtrl) and isinstance(g.gate, gates.X)
+            ):
                 if current_section_start_index is None:
                     current_section_start_index = i
                 current_section.append((g, w, p))
